@@ -31,6 +31,7 @@ func init() {
 			{Name: "strings", Run: c17Strings, QuickS: 60, ThoroughS: 900},
 			{Name: "siblings", Run: c17Siblings, Workers: 2, QuickS: 30, ThoroughS: 60},
 			{Name: "containers", Run: c17Apps, Workers: 4, QuickS: 30, ThoroughS: 60},
+			{Name: "aliasing", Run: c17Alias, Workers: 1, QuickS: 30, ThoroughS: 30},
 		},
 	})
 }
